@@ -309,3 +309,55 @@ func stuckViolation(res *check.Result, prop string, co *childOut) bool {
 	res.Nontrivial = true
 	return true
 }
+
+// startupPhases classifies the PWM values written to a fan before its first control cycle WITHOUT looking at
+// function names: the sweep of the PWM map is a run of writes a few milliseconds apart (>= 8 of them), the
+// RPM-curve measurement writes are at least the fan response delay (>= 1 s in the scenarios that use this)
+// apart. It returns the sweep writes, the measurement writes and the time span(s) covered by sweeps.
+type startupPhase struct {
+	Sweep, Measure int
+	Spans          [][2]time.Duration // [first, last] write of every sweep run
+}
+
+func startupPhases(events []*kernel.Event, isFanPwmWrite func(ev *kernel.Event) bool, until time.Duration) startupPhase {
+	var ts []time.Duration
+	for _, ev := range events {
+		if until > 0 && ev.T >= until {
+			break
+		}
+		if ev.Flags&kernel.FRestore != 0 {
+			continue // the hand-back after a failed start
+		}
+		if isFanPwmWrite(ev) {
+			ts = append(ts, ev.T)
+		}
+	}
+	var ph startupPhase
+	const gap = 400 * time.Millisecond
+	i := 0
+	for i < len(ts) {
+		j := i
+		for j+1 < len(ts) && ts[j+1]-ts[j] < gap {
+			j++
+		}
+		if n := j - i + 1; n >= 8 {
+			ph.Sweep += n
+			ph.Spans = append(ph.Spans, [2]time.Duration{ts[i], ts[j]})
+		} else {
+			ph.Measure += n
+		}
+		i = j + 1
+	}
+	return ph
+}
+
+// anyPwmWrite: a PWM value written to any fan of the scenario (file write or setPwm command).
+func anyPwmWrite(ev *kernel.Event) bool {
+	switch {
+	case ev.Kind == "write" && !strings.HasSuffix(ev.Site, "_enable") && (strings.Contains(ev.Site, "/pwm") || strings.HasSuffix(ev.Site, ".pwm")):
+		return true
+	case ev.Kind == "yield" && ev.Site == "exec.start" && strings.Contains(ev.ID, "_setpwm"):
+		return true
+	}
+	return false
+}
